@@ -582,5 +582,5 @@ MANIFEST = {
             "and nothing remains once it has cleaned up too (C08_receiver_all_ended_empty). The model's atomicity is tied to the code by enumerating every schedule of the real "
             "methods at lock boundaries and comparing the sets of final states.",
     "note": "Sender-side and receiver-side survival and crash-freedom are unbounded (any number of incarnations); the 2-3 incarnation statements are exhaustive explorations that also cover the eviction of the predecessor; an incarnation that starts registering before its predecessor has registered is outside the statement (the proxy cannot order them). Registration identity is the "
-            "time.Now() stamp. Goroutine leak is observed on whole streams (handlers returning), not proved.",
+            "time.Now() stamp. Goroutine leak is observed on whole streams (handlers returning), not proved. Also exercised (monitor only, real time): the intra-proxy receiver's hand-over of batches across reconnects of the target shard's sender (go/overlay/proxy/zz_verif_intrarecv_test.go), and stream opens refused by the local server.",
 }
